@@ -1,0 +1,5 @@
+//go:build !verif
+
+package minibus
+
+func verifAt(string, any, ...any) {}
